@@ -508,7 +508,7 @@ impl Check for C08 {
         "fault_enumeration"
     }
     fn world(&self) -> &'static str {
-        "B (shipped `lace compile` as a process under the faultfs.so syscall shim, /dev/full, RLIMIT_FSIZE)"
+        "B (shipped `lace compile` as a process under the faultfs.so syscall shim, /dev/full, RLIMIT_FSIZE; two gated processes for the interleaving sweep)"
     }
     fn runs(&self, tier: Tier) -> u64 {
         match tier {
@@ -533,6 +533,9 @@ impl Check for C08 {
             .set("faults", "sweep")
             .set("sweep_seed", J::Str(format!("{:016x}", rng.next_u64())))
             .set("doubles", if index % 3 == 0 { 6u64 } else { 0u64 })
+            // Every fourth program is also compiled by two processes at once, to one destination
+            .set("writers", if index % 4 == 1 { 2u64 } else { 1u64 })
+            .set("writers_seed", J::Str(format!("{:016x}", rng.next_u64())))
     }
     fn execute(&self, _cap: &Capture, scenario: &J) -> Report {
         let mut report = Report::default();
@@ -560,6 +563,7 @@ impl Check for C08 {
             full,
         };
         let faults: Vec<Fault> = match scenario.get("faults") {
+            // (a scenario narrowed to one two-writer schedule carries an empty list)
             Some(J::Arr(list)) => list.iter().filter_map(Fault::from_json).collect(),
             _ => {
                 let seed = scenario
@@ -598,6 +602,14 @@ impl Check for C08 {
                     report.violations.push(Violation::new(ID, key, detail));
                 }
             }
+        }
+        let narrowed_to_faults = matches!(scenario.get("faults"), Some(J::Arr(list)) if !list.is_empty());
+        if scenario.get_int("writers").unwrap_or(1) == 2 && matches!(setup.pre, Pre::Absent | Pre::Sentinel) && !narrowed_to_faults {
+            let seed = scenario
+                .get_str("writers_seed")
+                .and_then(|s| u64::from_str_radix(s, 16).ok())
+                .unwrap_or(1);
+            two_writers(&setup, &program, seed, scenario.get("schedule"), &mut report, &mut seen_keys, &mut hash);
         }
         match &setup.full {
             Err(stage) if stage.starts_with("emit@") => {
@@ -653,7 +665,24 @@ impl Check for C08 {
                 .unwrap_or(1);
             let mut rng = Rng::new(seed);
             for fault in sweep(&setup, &mut rng, scenario.get_int("doubles").unwrap_or(0) as usize) {
-                out.push(scenario.clone().set("faults", J::Arr(vec![fault.to_json()])));
+                out.push(scenario.clone().set("faults", J::Arr(vec![fault.to_json()])).set("writers", 1u64));
+            }
+            if scenario.get_int("writers").unwrap_or(1) == 2 {
+                // ... or to one schedule of the two writers
+                let wseed = scenario
+                    .get_str("writers_seed")
+                    .and_then(|s| u64::from_str_radix(s, 16).ok())
+                    .unwrap_or(1);
+                let mut wrng = Rng::new(wseed);
+                let _ = wrng.chance(1, 4);
+                for (order, plan_a, plan_b) in writer_schedules(&mut wrng) {
+                    out.push(
+                        scenario
+                            .clone()
+                            .set("faults", J::Arr(vec![]))
+                            .set("schedule", J::obj().set("order", order).set("plan_a", plan_a).set("plan_b", plan_b)),
+                    );
+                }
             }
             return out;
         }
@@ -674,21 +703,22 @@ impl Check for C08 {
         out
     }
     fn rule(&self) -> String {
-        "Scenario = (program, destination pre-state absent/present, fault). Programs: generated valid programs, half of them with one out-of-range label reference planted at a random statement k (9-, 10- and 11-bit fields; a .blkw pad pushes the target out of reach) so that everything before k emits and k fails. For every program the single-fault space is swept completely: no fault; for every mutating file-system call j = 1..J of a fault-free run of the same scenario (J measured through the shim): ENOSPC, EIO, EINTR one-shot, sticky ENOSPC, short write of 1 byte, write of 0 bytes, the process killed (SIGKILL) right before call j, the process killed right after call j; EACCES and EMFILE on the first call; destination /dev/full; RLIMIT_FSIZE at every byte 0..length with SIGXFSZ ignored (a genuine short write followed by EFBIG); destination inside a missing directory; destination is a directory; every third program also 6 random double faults. Faults are addressed by ordinal of mutating call, so the plan stays meaningful for implementations that buffer or use a temporary file plus rename. Oracle per process: (exit status 0 and destination == complete object) or (status != 0 and destination as before: absent, previous bytes, still the device node, still the directory); a panic counts as non-zero; a killed process has no status to be consistent with, so after a crash the destination must be the old state or the complete new file, never anything in between. evaluations counts programs; `processes` in other_counters counts fault runs. Non-trivial: a sweep of at least 2 faults; distinct = distinct (program, object length, failing stage, number of faults).".into()
+        "Scenario = (program, destination pre-state absent/present, fault). Programs: generated valid programs, half of them with one out-of-range label reference planted at a random statement k (9-, 10- and 11-bit fields; a .blkw pad pushes the target out of reach) so that everything before k emits and k fails. For every program the single-fault space is swept completely: no fault; for every mutating file-system call j = 1..J of a fault-free run of the same scenario (J measured through the shim): ENOSPC, EIO, EINTR one-shot, sticky ENOSPC, short write of 1 byte, write of 0 bytes; EACCES and EMFILE on the first call; destination /dev/full; RLIMIT_FSIZE at every byte 0..length with SIGXFSZ ignored (a genuine short write followed by EFBIG); destination inside a missing directory; destination is a directory; every third program also 6 random double faults. Every fourth program (destination absent or pre-existing) is also compiled by two processes at once to the same destination, the second one from a source one word longer (one time in four: the same source): the shim parks every mutating call of both processes until the harness grants it, so the harness decides the interleaving - all 20 interleavings of open/write/rename x open/write/rename, plus 10 seeded interleavings with one failing call (ENOSPC, EIO or EINTR at call 1..3 of one process). Whenever a process has exited (the other parked or gone) and at the end, the destination must be the old state or a complete object of either writer, and a complete one after an exit with status 0. Faults are addressed by ordinal of mutating call, so the plan stays meaningful for implementations that buffer or use a temporary file plus rename. Oracle per process: (exit status 0 and destination == complete object) or (status != 0 and destination as before: absent, previous bytes, still the device node, still the directory); a panic counts as non-zero. evaluations counts programs; `processes` in other_counters counts fault runs. Non-trivial: a sweep of at least 2 faults; distinct = distinct (program, object length, failing stage, number of faults).".into()
     }
     fn assumptions(&self) -> Vec<String> {
         vec![
             "the binary under test is built from /repo's current tree with the verification guard OFF (the shipped program)".into(),
             "expected object bytes come from the same tree through the public library API (C01/C06 own their correctness)".into(),
             "LD_PRELOAD interposition of open/open64/openat/creat/write/read/rename/unlink/ftruncate/fsync/fdatasync sees every file-system call the Rust standard library makes on the destination directory (checked: the shim log of a fault-free run lists the open and every write)".into(),
-            "SIGKILL at an arbitrary instant is not injected: the property speaks of exit statuses".into(),
+            "after a crash (SIGKILL at a mutating call) the destination may be the old state or the complete new file: a crash has no exit status to be consistent with".into(),
+            "two writers: when a process has exited, the destination is judged at that instant (everyone else is parked at a gate): complete after status 0, else the old state or a complete object of either writer".into(),
             "leftover temporary files are ignored; only the destination path is judged".into(),
         ]
     }
     fn components(&self) -> J {
         J::obj()
             .set("real", J::Arr(["the whole `lace` binary (clap front end, assembler, Compile arm, File I/O through libc)", "kernel file system (tmpfs scratch directory), /dev/full, RLIMIT_FSIZE"].iter().map(|s| J::from(*s)).collect()))
-            .set("stub", J::Arr(["outcome of individual file-system calls on the destination directory (faultfs.so decides per ordinal)"].iter().map(|s| J::from(*s)).collect()))
+            .set("stub", J::Arr(["outcome of individual file-system calls on the destination directory (faultfs.so decides per ordinal)", "order of the file-system calls of two concurrent compiles (the harness grants them one at a time)"].iter().map(|s| J::from(*s)).collect()))
     }
     fn expected_probes(&self) -> Vec<&'static str> {
         vec![
@@ -702,10 +732,183 @@ impl Check for C08 {
             "fault:rlimit-fsize",
             "fault:missing-dir",
             "fault:dest-is-dir",
+            "fault:killed-before-call",
+            "fault:killed-after-call",
+            "fault:two_writers_interleaving",
+            "fault:two_writers_one_failing_call",
             "probe:destination_pre_existing",
             "probe:destination_absent",
             "probe:stale_temporary_file_present",
             "probe:destination_is_symlink",
         ]
+    }
+}
+
+fn writer_schedules(rng: &mut Rng) -> Vec<(String, String, String)> {
+    let mut schedules: Vec<(String, String, String)> = Vec::new();
+    // All interleavings of three calls each (open, write, rename)
+    for mask in 0u32..64 {
+        if mask.count_ones() == 3 {
+            let order: String = (0..6).map(|i| if mask >> i & 1 == 1 { '1' } else { '0' }).collect();
+            schedules.push((order, String::new(), String::new()));
+        }
+    }
+    // One failing call in one of the processes, random interleavings
+    for _ in 0..10 {
+        let order: String = (0..12).map(|_| if rng.coin() { '1' } else { '0' }).collect();
+        let fault = format!("{}:errno={}", 1 + rng.below(3), rng.pick(&[28, 5, 4]));
+        if rng.coin() {
+            schedules.push((order, fault, String::new()));
+        } else {
+            schedules.push((order, String::new(), fault));
+        }
+    }
+    schedules
+}
+
+/// Two `lace compile` processes, one destination, every interleaving of their file-system calls
+/// (the harness grants the calls one at a time), plus interleavings with one failing call.
+/// Whenever a process has exited - everyone else parked - and at the end, the destination is the
+/// state before or one complete object file; after an exit with status 0 it is a complete one.
+fn two_writers(setup: &Setup, program: &Program, seed: u64, only: Option<&J>, report: &mut Report, seen_keys: &mut Vec<String>, hash: &mut Vec<u8>) {
+    use crate::world_gate::{run_gated, GatedSpec, Step};
+    let mut rng = Rng::new(seed);
+    // The second writer compiles a slightly different program (one more word), so that the two
+    // objects can be told apart; one time in four the very same source
+    let mut other = program.clone();
+    if !rng.chance(1, 4) {
+        other.stmts.push(Stmt {
+            labels: vec![],
+            text: ".fill x1234".to_string(),
+            words: 1,
+            breaks: 0,
+        });
+    }
+    let source_b = other.render();
+    let full_b = assemble_words(&source_b, setup.stack).map(|w| words_to_bytes(&w));
+    if matches!(&full_b, Err(stage) if stage == "panic") {
+        return;
+    }
+    // Schedules: who goes next, as a string of process indices (exhausted: lowest parked first)
+    let all = writer_schedules(&mut rng);
+    let schedules: Vec<(String, String, String)> = match only {
+        Some(j) => vec![(
+            j.get_str("order").unwrap_or("").to_string(),
+            j.get_str("plan_a").unwrap_or("").to_string(),
+            j.get_str("plan_b").unwrap_or("").to_string(),
+        )],
+        None => all,
+    };
+    for (order, plan_a, plan_b) in schedules {
+        let scratch = Scratch::new("c08w");
+        let out_dir = scratch.path("out");
+        std::fs::create_dir_all(&out_dir).expect("out dir");
+        let src_a = scratch.path("a.asm");
+        let src_b = scratch.path("b.asm");
+        std::fs::write(&src_a, &setup.source).expect("write source");
+        std::fs::write(&src_b, &source_b).expect("write source");
+        let dest = out_dir.join("prog.lc3");
+        let before: Option<Vec<u8>> = if setup.pre == Pre::Sentinel {
+            std::fs::write(&dest, SENTINEL).expect("sentinel");
+            Some(SENTINEL.to_vec())
+        } else {
+            None
+        };
+        let mut args_a: Vec<std::ffi::OsString> = vec!["compile".into(), src_a.clone().into_os_string(), dest.clone().into_os_string()];
+        let mut args_b: Vec<std::ffi::OsString> = vec!["compile".into(), src_b.clone().into_os_string(), dest.clone().into_os_string()];
+        if setup.stack {
+            for a in [&mut args_a, &mut args_b] {
+                a.push("-f".into());
+                a.push("stack".into());
+            }
+        }
+        let specs = [
+            GatedSpec {
+                args: args_a,
+                plan: plan_a.clone(),
+            },
+            GatedSpec {
+                args: args_b,
+                plan: plan_b.clone(),
+            },
+        ];
+        let classify = |dest: &std::path::Path| -> (&'static str, bool) {
+            match dest_state(dest) {
+                DestState::Absent => ("absent", before.is_none()),
+                DestState::Bytes(b) => {
+                    if Some(&b) == before.as_ref() {
+                        ("as-before", true)
+                    } else if matches!(&setup.full, Ok(f) if f == &b) || matches!(&full_b, Ok(f) if f == &b) {
+                        ("complete", true)
+                    } else if b.is_empty() {
+                        ("empty", false)
+                    } else {
+                        ("partial-or-mixed", false)
+                    }
+                }
+                _ => ("other", false),
+            }
+        };
+        let mut turn = order.chars().map(|c| if c == '1' { 1usize } else { 0 }).collect::<Vec<_>>().into_iter();
+        let mut choose = |parked: &[usize]| -> usize {
+            for want in turn.by_ref() {
+                if parked.contains(&want) {
+                    return want;
+                }
+            }
+            parked[0]
+        };
+        let mut trace: Vec<String> = Vec::new();
+        let mut found: Option<(String, String)> = None;
+        let mut observe = |step: &Step, exits: &[Option<crate::world_gate::GatedExit>]| match step {
+            Step::Granted { proc_, op, .. } => trace.push(format!("{}:{}", if *proc_ == 0 { 'A' } else { 'B' }, op)),
+            Step::Exited { proc_ } => {
+                let status = exits[*proc_].as_ref().and_then(|e| e.status);
+                trace.push(format!("{}:exit({:?})", if *proc_ == 0 { 'A' } else { 'B' }, status));
+                let (state, fine) = classify(&dest);
+                let ok_exit = status == Some(0);
+                let holds = if ok_exit { state == "complete" } else { fine };
+                if !holds && found.is_none() {
+                    found = Some((
+                        format!(
+                            "C08/two-writers/{}/status={}/dest={}",
+                            if plan_a.is_empty() && plan_b.is_empty() { "no-fault" } else { "one-failing-call" },
+                            if ok_exit { "0" } else { "nonzero" },
+                            state
+                        ),
+                        format!(
+                            "two compiles to one destination, calls granted in the order {:?}: when process {} had exited with {:?} (the other parked or gone) the destination was {}",
+                            trace,
+                            if *proc_ == 0 { 'A' } else { 'B' },
+                            status,
+                            state
+                        ),
+                    ));
+                }
+            }
+        };
+        let result = run_gated(&scratch, &out_dir, &scratch.dir, &specs, &mut choose, &mut observe);
+        report.count("processes", 2);
+        report.hit("fault:two_writers_interleaving");
+        if !(plan_a.is_empty() && plan_b.is_empty()) {
+            report.hit("fault:two_writers_one_failing_call");
+        }
+        hash.extend_from_slice(trace.join(",").as_bytes());
+        match result {
+            Err(e) => {
+                report.hit(&format!("probe:gate_error({})", e));
+            }
+            Ok(_) => {
+                if let Some((key, detail)) = found {
+                    if !seen_keys.contains(&key) {
+                        seen_keys.push(key.clone());
+                        let mut v = Violation::new(ID, key, detail);
+                        // The failing schedule, for replay and minimisation
+                        v.detail.push_str(&format!(" [schedule order={} plan_a={:?} plan_b={:?}]", order, plan_a, plan_b));
+                        report.violations.push(v);
+                    }
+                }
+            }
+        }
     }
 }
